@@ -179,6 +179,10 @@ func (pd *perRawBitData) appendBitString(bytes []byte, bitsLength uint64, extens
 		lb = 0
 	}
 	sizes := (bitsLength + 7) >> 3
+	if uint64(len(bytes)) > sizes {
+		// octets behind the last significant one are not part of the value
+		bytes = bytes[:sizes]
+	}
 	shift := (8 - bitsLength&0x7)
 	if shift != 8 {
 		bytes[sizes-1] &= (0xff << shift)
